@@ -66,6 +66,10 @@ pub fn family(tier: Tier, seed: u64) -> Vec<SysSpec> {
         .into_iter()
         .enumerate()
         .map(|(i, s)| {
+            // the hand-built corner systems come first, all of them; the other families are interleaved
+            if s.name.starts_with("X-") {
+                return (0, i, s);
+            }
             let sk = if s.name.contains("-deadend") { "deadend".to_string() } else { s.name.split('-').next().unwrap_or("").to_string() };
             let r = rank.entry(sk).or_insert(0);
             *r += 1;
@@ -159,6 +163,9 @@ pub fn cases(tier: Tier, seed: u64, rep: &Report) -> Vec<Case> {
     let mut keyed: Vec<(u64, Case)> = out
         .into_iter()
         .map(|c| {
+            if c.spec.name.starts_with("X-") {
+                return (0, c);
+            }
             let sk = if c.spec.name.contains("-deadend") { "deadend".to_string() } else { c.spec.name.split('-').next().unwrap_or("").to_string() };
             let r = rank.entry(sk).or_insert(0);
             *r += 1;
